@@ -538,6 +538,9 @@ def check_C09(A, R, tier):
     # R9.2 (necessary for 'no excess on resume'): stale-but-equivalent records are never compared textually
     from rules_compare import rule_no_textual_record_compare
     rule_no_textual_record_compare(A, R, "R9.2")
+    # R9.2 also = R15.4: the comparison is asked about the pair whose records it is given
+    from rules_compare import rule_comparison_pair
+    rule_comparison_pair(A, R, "R9.2")
     # R9.3 (= R3.8): an invalidated Ephemeral somebody can need is never skipped (a skip refreshes the records of what it consumed:
     # after an interruption the resumed evaluation would then not rebuild it)
     from rules_compare import rule_no_skip_when_invalidated
